@@ -24,7 +24,7 @@ pub struct StrEngine {
 
 const ALPHABET: [char; 12] = ['a', 'z', 'é', 'ß', '€', '語', '😀', '\u{0301}', '\u{FFFD}', '\0', 'Q', '\u{10FFFF}'];
 
-fn text(r: &Rec, off: usize, n: usize) -> String {
+pub(crate) fn text(r: &Rec, off: usize, n: usize) -> String {
     (0..n).map(|i| ALPHABET[(r.b(off + i % 8) as usize + i * 5) % ALPHABET.len()]).collect()
 }
 
@@ -572,7 +572,13 @@ fn step<'b, 'a>(st: &mut St, s: &mut SK<'b, 'a>, m: &mut String, op: &SOp) -> Op
                     st.class("fault_fired");
                 }
                 if s.as_str() != m.as_str() {
-                    st.fail("C07/collection-state-after-failure", format!("{what}: failed operation changed the contents to {:?}", s.as_str()));
+                    // a formatted write is a sequence of pushes: the pieces written before the failing one stay
+                    // (as with io::Write / fmt::Write on any sink); every other operation is all-or-nothing
+                    let partial_ok = matches!(op, SOp::WriteFmt(..)) && s.as_str().starts_with(m.as_str()) && m2.starts_with(s.as_str());
+                    if !partial_ok {
+                        st.fail("C07/collection-state-after-failure", format!("{what}: failed operation changed the contents to {:?}", s.as_str()));
+                    }
+                    *m = s.as_str().to_string();
                 }
             }
             (_, MR::Panic) => {
@@ -949,7 +955,11 @@ fn run_mut<'a>(st: &mut St, arena: &mut (dyn MutBumpAllocatorCoreScope<'a> + 'a)
                 }
                 (Ok(RR::AllocErr), _) => {
                     if s.as_str() != m.as_str() {
-                        st.fail("C07/collection-state-after-failure", format!("{what}: failed operation changed the contents"));
+                        let partial_ok = matches!(op, SOp::WriteFmt(..)) && s.as_str().starts_with(m.as_str()) && m2.starts_with(s.as_str());
+                        if !partial_ok {
+                            st.fail("C07/collection-state-after-failure", format!("{what}: failed operation changed the contents"));
+                        }
+                        m = s.as_str().to_string();
                     }
                 }
                 (Ok(_), MR::Panic) => st.fail("C09/panic-verdict", format!("{what}: returned normally where std String panics")),
